@@ -190,9 +190,13 @@ def regenerate(mod, tier, root, key):
 
 
 def mark_hang(path):
+    mark(path, 'hang', True)
+
+
+def mark(path, key, value):
     with open(path) as f:
         doc = json.load(f)
-    doc['hang'] = True
+    doc[key] = value
     with open(path, 'w') as f:
         json.dump(doc, f, indent=1, default=core._json_default, sort_keys=True)
 
@@ -231,6 +235,10 @@ def do_check(mod, modname, args, root):
     if args.runs is not None:
         cfg['runs'] = args.runs
     t0 = time.time()
+    # forked now, while this process has not run anything yet: stands in for "a fresh process" when a violation shows
+    # only the first time a process meets its input (see the end of this function)
+    from sim import pristine
+    pristine.start('replay')
     units = mod.sweep_units(tier, root) if hasattr(mod, 'sweep_units') else []
     agg = core.run_batch(modname, tier, root, n_runs=cfg['runs'], budget_s=cfg['budget'],
                          workers=args.workers, units=units)
@@ -287,33 +295,63 @@ def do_check(mod, modname, args, root):
     known_matched = []
     t_min_budget = max(10.0, min(60.0, cfg['budget'] * 0.5)) / max(1, len(by_cls))
     unreproducible = []
+    fresh_ready = [False]
+    def attempt(case_, cls_):
+        """minimise, then confirm once more from the minimised (explicit) trace -> (min case, res, viol, steps, confirming res)"""
+        g = shrink.minimise(mod, case_, cls_, budget_s=t_min_budget)
+        if g is None:
+            return None
+        a = shrink.still_fails(mod, g[0], cls_)
+        if a is None:
+            return None
+        return g + (a[0],)
+
     for cls, (order_key, case, v) in sorted(by_cls.items()):
-        got = shrink.minimise(mod, case, cls, budget_s=t_min_budget)
+        got = attempt(case, cls)
         if got is None:
             # not reproducible on its own: does it reproduce after the runs that preceded it in its batch?
             # (then the system under test carries state from one request/parse to the next in a process-wide object)
             hist = history_before(mod, tier, root, order_key, case)
             if hist is not None:
-                got = shrink.minimise(mod, {'_prior_runs': hist}, cls, budget_s=t_min_budget)
+                got = attempt({'_prior_runs': hist}, cls)
         if got is None:
             # another instance of the same class may be self-contained
             for ok2, case2, v2 in alternatives.get(cls, []):
-                got = shrink.minimise(mod, case2, cls, budget_s=t_min_budget)
+                got = attempt(case2, cls)
                 if got is not None:
                     order_key, case, v = ok2, case2, v2
                     break
+        fresh = False
+        if got is None:
+            # does it show only the first time a process meets this input (a cache inside the system under test that
+            # the first run fills)?  Then this process, which has meanwhile run the case, cannot show it again: every
+            # candidate is evaluated in a process of its own, forked from a zygote that was forked before anything ran
+            # and has only executed the module's setup_worker - exactly what `--replay` does in a fresh interpreter
+            if not fresh_ready[0]:
+                st, msg = pristine.prepare('replay', 'sim.shrink', '_child_setup', modname)
+                if st != 'ok':
+                    raise HarnessError(f'preparing the replay zygote failed: {msg}')
+                fresh_ready[0] = True
+            shrink.FRESH['on'] = True
+            try:
+                for ok2, case2, v2 in [(order_key, case, v)] + alternatives.get(cls, []):
+                    got = attempt(case2, cls)
+                    if got is not None:
+                        order_key, case, v = ok2, case2, v2
+                        fresh = True
+                        break
+            finally:
+                shrink.FRESH['on'] = False
         if got is None:
             unreproducible.append((cls, order_key))
             continue
-        mcase, res, viol, steps = got
-        # confirm once more from the explicit minimised trace
-        again = shrink.still_fails(mod, mcase, cls)
-        if again is None:
-            unreproducible.append((cls, order_key))
-            continue
+        mcase, res, viol, steps, confirm = got
         k = core.match_known(mod.PROP, cls, known)
-        path = core.write_replay(mod.PROP, cls, mcase, viol, again[0]['digest'], original_case=case,
+        path = core.write_replay(mod.PROP, cls, mcase, viol, confirm['digest'], original_case=case,
                                  subdir='known' if k else None)
+        if fresh:
+            mark(path, 'fresh_process', 'shows only the first time a process serves this input; reproduced and minimised '
+                                        'with every run in a process of its own, as --replay does')
         if k:
             print(f'KNOWN-FINDING: property={mod.PROP} {k.get("what", cls)} [class={cls}] replay={path}')
             known_matched.append({'class': cls, 'replay': path})
